@@ -1,6 +1,6 @@
 """C17 Extracting images and compiling them back reproduces the embedded textures (narrow structural clauses)."""
 import re
-from common import Report
+from common import Report, Broken
 from facts import hir_walk, op_local, op_place, place_local
 from rules import arms, flow
 from rules.visit import variant_alternatives
@@ -151,4 +151,111 @@ def run(db, tier):
     lifo_only = any(c.endswith("Vec::<T, A>::pop") for c in cl) and not any(c.endswith("<impl [T]>::reverse") for c in cl)
     rep.check(push and fifo and not lifo_only, "R-SOURCE-ORDER", "apply_anm_image_source|fifo", ap.loc, "per-path queues are filled in file order and drained first-in first-out",
               "the per-path queues are not drained first-in first-out (push=%s, reverse+pop/pop_front/remove(0)=%s)" % (push, fifo))
+    # ---------------- R-PIXEL-LAYOUT: decoder and encoder of each packed pixel format agree bit for bit
+    from rules import bitlayout, hirq
+    rep.rule("R-PIXEL-LAYOUT", "for each packed 16-bit format the bit field that the decoder extracts for a channel (shift, mask, "
+                               "change_bit_depth::<w, 8>) is exactly the field into which the encoder packs the channel's top w bits; the fields "
+                               "are disjoint and cover the pixel; ARGB8888 uses the same byte order in both directions; the gray weights sum to 1")
+    CH = ("red", "green", "blue", "alpha")
+    for fmt, bits in (("Rgb565", 16), ("Argb4444", 16)):
+        dec = db.fn("<image::color::Components as core::convert::From<image::color::%s>>::from" % fmt)
+        enc = db.fn("<image::color::%s as core::convert::From<image::color::Components>>::from" % fmt)
+        rep.fn(dec)
+        rep.fn(enc)
+
+        def pix_origin(n, bits=bits):
+            if n.get("k") == "Field" and n.get("n") == "0" and n["e"].get("k") == "Path" and n["e"].get("p") == "color":
+                return ("pixel", bits)
+            return None
+
+        def comp_origin(n):
+            if n.get("k") == "Field" and n.get("n") in CH and n["e"].get("k") == "Path" and n["e"].get("p") == "components":
+                return (n["n"], 8)
+            return None
+        sd = bitlayout.Sym(dec, db, pix_origin)
+        st_ = [n for n in hir_walk(dec.hir) if n.get("k") == "Struct" and n.get("p", "").endswith("color::Components")]
+        dec_fields = {}
+        undec = []
+        for nm, e in (st_[0]["fs"] if st_ else []):
+            sd.notes = []
+            v = sd.ev(e)
+            if v is None:
+                if bitlayout.lit_int(e) == 255:
+                    dec_fields[nm] = "const255"
+                else:
+                    undec.append(nm)
+                continue
+            # the value handed to change_bit_depth::<IN, 8> is pixel bits [lo, lo+w) at bit 0
+            cbd = sd.notes[-1] if sd.notes else None
+            inp = [x for x in cbd[2] if x[0] == "pixel"] if cbd is not None else []
+            if len(inp) == 1 and inp[0][3] == 0:
+                dec_fields[nm] = (inp[0][1], inp[0][2], cbd[0])
+            else:
+                undec.append(nm)
+        se = bitlayout.Sym(enc, db, comp_origin)
+        ctor = [n for n in hir_walk(enc.hir) if n.get("k") == "Call" and (n.get("f") or "").endswith("color::" + fmt) and n.get("a")]
+        ev = se.ev(ctor[0]["a"][0]) if ctor else None
+        enc_fields = {}
+        if ev is not None:
+            for (o, olo, w, d) in ev:
+                if o in CH and olo + w == 8:
+                    enc_fields[o] = (d, w)
+        if se.overlaps:
+            rep.bad("R-PIXEL-LAYOUT", "%s|encoder overlap" % fmt, enc.loc, "the encoder of %s packs two channels onto bit(s) %s" % (fmt, sorted(set(se.overlaps))))
+        if undec or ev is None:
+            raise Broken("R-PIXEL-LAYOUT: cannot follow the bit operations of %s (%s)" % (fmt, undec or "encoder"))
+        cover = set()
+        for nm in CH:
+            d_ = dec_fields.get(nm)
+            e_ = enc_fields.get(nm)
+            if d_ == "const255":
+                rep.check(e_ is None, "R-PIXEL-LAYOUT", "%s|%s" % (fmt, nm), dec.loc, "%s: constant on decode, not stored" % nm,
+                          "%s is decoded as a constant but the encoder stores it at bit %s" % (nm, e_))
+                continue
+            ok = d_ is not None and e_ is not None and (d_[0], d_[1]) == e_ and d_[2] == d_[1]
+            rep.check(ok, "R-PIXEL-LAYOUT", "%s|%s" % (fmt, nm), "%s / %s" % (dec.loc, enc.loc),
+                      "%s: bits [%s, +%s) on both sides, rescaled from %s bits" % (nm, e_[0] if e_ else "?", e_[1] if e_ else "?", d_[2] if d_ else "?"),
+                      "%s of %s: the decoder reads (lo, width, rescale-from) = %s but the encoder writes (lo, width) = %s: a texture does not survive "
+                      "decode + encode" % (nm, fmt, d_, e_))
+            if e_:
+                cover |= set(range(e_[0], e_[0] + e_[1]))
+        rep.check(cover == set(range(bits)), "R-PIXEL-LAYOUT", "%s|coverage" % fmt, enc.loc, "the channel fields cover all %d bits exactly once" % bits,
+                  "the channel fields of %s cover bits %s of %d" % (fmt, sorted(cover), bits))
+    # ARGB8888: byte order
+    d8 = db.fn("<image::color::Components as core::convert::From<image::color::Argb8888>>::from")
+    e8 = db.fn("<image::color::Argb8888 as core::convert::From<image::color::Components>>::from")
+    rep.fn(d8)
+    rep.fn(e8)
+    dord = None
+    for st in hirq.let_stmts(d8.hir):
+        if st["p"].get("k") == "Slice" and any((c.get("f") or "").endswith("to_be_bytes") or (c.get("f") or "").endswith("to_le_bytes") for c in hirq.call_seq(st["i"])):
+            dord = ([q.get("n") for q in st["p"]["a"]], [c["f"].rsplit("::", 1)[-1] for c in hirq.call_seq(st["i"])][0])
+    eord = None
+    for c in hirq.call_seq(e8.hir):
+        if c["f"].endswith("from_be_bytes") or c["f"].endswith("from_le_bytes"):
+            arr = c["a"][0]
+            eord = ([x.get("p") for x in arr.get("es", [])], c["f"].rsplit("::", 1)[-1])
+    ok8 = dord is not None and eord is not None and dord[0] == eord[0] and dord[1].replace("to_", "") == eord[1].replace("from_", "")
+    rep.check(ok8, "R-PIXEL-LAYOUT", "Argb8888|byte order", "%s / %s" % (d8.loc, e8.loc), "decode %s == encode %s" % (dord, eord),
+              "ARGB8888 is unpacked as %s but packed as %s" % (dord, eord))
+    # gray: weights sum to one (so that R=G=B=v encodes back to v)
+    g8 = db.fn("<image::color::Gray8 as core::convert::From<image::color::Components>>::from")
+    rep.fn(g8)
+    wts = {}
+    for n in hir_walk(g8.hir):
+        if n.get("k") == "Binary" and n.get("op") == "*":
+            chs = [v for t_, v in hirq.features(g8, n["l"], {}) if t_ == "local" and v in CH] + [v for t_, v in hirq.features(g8, n["l"], {}) if t_ == "field" and v in CH]
+            try:
+                wv = float(str(n["r"].get("v")).replace("_f32", "").replace("f32", ""))
+            except (TypeError, ValueError):
+                wv = None
+            if len(chs) == 1 and wv is not None:
+                wts[chs[0]] = wv
+    rep.check(set(wts) == {"red", "green", "blue"} and abs(sum(wts.values()) - 1.0) < 1e-6, "R-PIXEL-LAYOUT", "Gray8|weights", g8.loc,
+              "luma weights %s sum to 1" % wts, "the gray weights %s do not cover red, green and blue with sum 1: a gray texture does not encode back to itself" % wts)
+    gd = db.fn("<image::color::Components as core::convert::From<image::color::Gray8>>::from")
+    rep.fn(gd)
+    stg = [n for n in hir_walk(gd.hir) if n.get("k") == "Struct" and n.get("p", "").endswith("color::Components")]
+    same = stg and all((e.get("k") == "Path" and e.get("p") == "value") for nm, e in stg[0]["fs"] if nm != "alpha")
+    rep.check(bool(same), "R-PIXEL-LAYOUT", "Gray8|decode", gd.loc, "R = G = B = value", "gray is not decoded to R = G = B = value")
     return rep
